@@ -11,7 +11,7 @@ below the uuid supply and different from descriptor handles, at most one associa
 associated state has no unbinding version).
 
 The version an operation writes into Binding/UnbindingMdibVersion is `st.ver + 1` of the state it commits on: the model
-reads the version and commits in one `step`.  On the real code this atomicity is what `context_state_transaction()`
+reads the version and the table and commits in one `step`.  On the real code this atomicity is what `context_state_transaction()`
 (`_transaction_manager`: `with self._tr_lock, self.mdib_lock`, `new_mdib_version` computed when the transaction object is
 created inside it) provides.  It is tied to the source in two ways: `version_reads_inside_transaction` below (generated
 from a dynamic trace on every run) and the schedule scenario of the harness (another transaction is open when the
@@ -79,6 +79,12 @@ traced scenarios regenerated on every run into `Generated/ContextLocks.lean`) ha
 transaction lock: the hypothesis "version read and commit are one atomic step" of the model -/
 theorem version_reads_inside_transaction :
     ∀ r ∈ Generated.ContextLocks.versionReads, r.2.2 = 0 := by decide
+
+/-- the SetContextState handler fetches its working copies of the context states (`mdib.entities.by_handle`) only while
+it holds the transaction lock: what it reads is the table it commits on (the model reads `st.tab` in the same `step`).
+The forced two-writer schedule of the harness is the behavioural tie for the same fact. -/
+theorem entity_reads_inside_transaction :
+    ∀ r ∈ Generated.ContextLocks.entityReads, r.2.2 = 0 := by decide
 
 /-- the MdibVersion moves by at most one per operation, and not at all when the table is unchanged -/
 theorem version_step {env : Env} {st : St} (hwf : WF env st) (ops : List Op) (op : Op) :
@@ -187,6 +193,9 @@ example : (run env0 st0 ops0).ver = 8 := by decide
 
 /-- the trace is not empty and every scenario did read the version under the lock -/
 example : Generated.ContextLocks.versionReads ≠ [] ∧ ∀ r ∈ Generated.ContextLocks.versionReads, 0 < r.2.1 := by decide
+
+/-- the handler did fetch entities in the traced SetContextState scenarios -/
+example : ∃ r ∈ Generated.ContextLocks.entityReads, 0 < r.2.1 := by decide
 
 /-- the theorems cover interleaved commits of other transactions: the versions follow the operation's own commit -/
 example : ((run env0 st0 [.otherCommit, .setContextState [prop 1 1 .assoc], .otherCommit]).tab.map
